@@ -51,7 +51,7 @@ theorem flagged_calls {s : Simp} (hs : SimpSound s) {o : Oracle} (ho : OracleSou
     (hmem : cfg.maxMem + 32 ≤ p.memLimit) (hdep : 1024 ≤ p.maxDepth)
     (hcodes : ∀ a, w.codeOf a = codeOf codes a)
     (hcb : ∀ a prog, codeOf codes a = some prog → ∀ b ∈ prog, b < 256)
-    (hz : ∀ a, Modelled codes this a → C01.ZeroStorage w a) (hnc : cfg.create = false)
+    (hz : ∀ a, Modelled codes this a → C01.ZeroStorage w a) (hnc : cfg.create = false) (hnh : cfg.hsto = false)
     (I : Interp) (hI : I.Std) (hbal : cfg.balances = true → BalHyp I cfg w)
     (hbound : cfg.balances = true → BalBound w) (hsha : cfg.sha3 = true → ShaInterp I p cfg)
     (hshaok : ∀ cs, VisitedC s o cfg codes (initC env codes this) cs → ShaOK I s cfg cs) (f0 : Evm.Frame)
@@ -65,7 +65,7 @@ theorem flagged_calls {s : Simp} (hs : SimpSound s) {o : Oracle} (ho : OracleSou
     ∃ ce ∈ (runC s o cfg env codes this fuel).ends, Sat I ce.e.st.path ∧ ce.e.tag = .normal ∧
       (∃ h0, ce.e.out = .halt h0 ∧ haltWith h0 (ce.e.data.map (·.eval I)) = h) ∧
       WRelM I (Modelled codes this) w w' (stoOf ce.stores) (evalLogs I ce.logs) (balSem I w ce.bal) := by
-  rcases C02.complete_calls hs ho cfg env codes this fuel p w hmem hdep hcodes hcb hz hnc I hI hbal hbound hsha hshaok f0 hR0 hthis hd0
+  rcases C02.complete_calls hs ho cfg env codes this fuel p w hmem hdep hcodes hcb hz hnc hnh I hI hbal hbound hsha hshaok f0 hR0 hthis hd0
       n w' h hex
     with ⟨ce, hm, hsat, hc⟩ | hb' | hd' | hf'
   · obtain ⟨hns, htag⟩ := herr ce hm hsat
@@ -85,7 +85,7 @@ theorem flagged_calls_create {s : Simp} (hs : SimpSound s) {o : Oracle} (ho : Or
     (hcodes : ∀ a, w.codeOf a = codeOf codes a)
     (hcb : ∀ a prog, codeOf codes a = some prog → ∀ b ∈ prog, b < 256)
     (hz : ∀ a, ModelledC cfg codes this a → C01.ZeroStorage w a)
-    (hcr : cfg.create = true)
+    (hcr : cfg.create = true) (hnh : cfg.hsto = false)
     (hal : ∀ n, p.newAddress (w.created + n) = (cfg.allocBase + n) % 2 ^ 160)
     (hbw : ∀ a, w.balanceOf a < 2 ^ 256)
     (I : Interp) (hI : I.Std) (hbal : cfg.balances = true → BalHyp I cfg w)
@@ -102,7 +102,7 @@ theorem flagged_calls_create {s : Simp} (hs : SimpSound s) {o : Oracle} (ho : Or
       (∃ h0, ce.e.out = .halt h0 ∧ haltWith h0 (ce.e.data.map (·.eval I)) = h) ∧
       WRelM I (ModelledC cfg codes this) (wd w ce.created ce.nonce) w' (stoOf ce.stores) (evalLogs I ce.logs)
         (balSem I w ce.bal) := by
-  rcases C02.complete_calls_create hs ho cfg env codes this fuel p w hmem hdep hcodes hcb hz hcr hal hbw I hI hbal hbound hsha hshaok f0 hR0 hthis hd0
+  rcases C02.complete_calls_create hs ho cfg env codes this fuel p w hmem hdep hcodes hcb hz hcr hnh hal hbw I hI hbal hbound hsha hshaok f0 hR0 hthis hd0
       n w' h hex
     with ⟨ce, hm, hsat, hc⟩ | hb' | hd' | hf'
   · obtain ⟨hns, htag⟩ := herr ce hm hsat
